@@ -11,11 +11,11 @@ CONSTANTS
   WWs = {1}
   MWs = {1}
   NWs = {1, 2}
-  GWs = {1, 2}
+  GWs = {1}
   Buds = {0}
   NSAs = {FALSE}
   OptSets <- OptsTreeFull
-  Budgets = {2, 3, 6, 9}
+  Budgets = {3, 6}
 VIEW MCView
 INVARIANTS TypeOK AtMostOnce ExactlyOnce Unbiased KeptRowsFactorGE1 NoSampleAgentKept SameFactorInLeaf FitsNothingSampled FairShare FixedWithinBudget FairShareRemaining FitIsJustified Monotone KeptWithinBudget QuotaWithinTotal QuotaProportional QuotaFitIsSize QuotaWithinTotalAnyRounding ExportDone
 CHECK_DEADLOCK FALSE
